@@ -14,9 +14,9 @@ WIDTHS = [(1, 1), (37, 331), (1021, 4099), (331, 1021), (4099, 37), (509, 2048)]
 
 
 def consts(acts, D, *, wa=37, wb=331, data=("", "a", "b", "aCL", "L", "N"), nsel=(0, 1, 2, 9), sizes=(0, 100, 2000),
-           maxlen=6, cbmode=0):
+           maxlen=6, cbmode=0, warm=0):
     return {"WA": wa, "WB": wb, "DataSel": frozenset(DATA[d] for d in data), "NSel": frozenset(nsel),
-            "Sizes": frozenset(sizes), "Acts": frozenset(acts), "MaxLen": maxlen, "D": D, "CbMode": cbmode}
+            "Sizes": frozenset(sizes), "Acts": frozenset(acts), "MaxLen": maxlen, "D": D, "CbMode": cbmode, "Warm": warm}
 
 
 def drv_cfg(c, **kw):
@@ -53,7 +53,8 @@ def generate(chk, name, c, *, simulate=None, depth=None, seed=None, invariants=(
 
 
 INV_LIST = ["TypeOK", "SearchSound", "EolSound", "MovesConserve", "FailureUnchanged", "CountsExact", "LedgerExact",
-            "ReportConsistent", "NothingPending", "DisabledSilent", "LoopFlushes"]
+            "ReportConsistent", "NothingPending", "DisabledSilent", "LoopFlushes", "TagsParallel", "CleanupExactlyOnce",
+            "ReadBackEqualsSource"]
 
 
 def model_check(chk, name, c, *, timeout=1200, workers=None):
@@ -77,7 +78,7 @@ def side_conditions(act):
     return None
 
 
-def compare(hists, outs, *, extra=None):
+def compare(hists, outs, *, extra=None, check_end=False):
     """Like vkit.compare_histories plus the side conditions.  Returns [(index, step, message)]."""
     fails = []
     for i, (h, o) in enumerate(zip(hists, outs)):
@@ -97,7 +98,7 @@ def compare(hists, outs, *, extra=None):
                 d = extra(st, steps[k])
             if d:
                 bad = (k, d); break
-        if not bad:
+        if not bad and check_end:
             e = o.get("end", {})
             if e.get("bad") or e.get("notclean"):
                 bad = (len(h) - 1, "teardown: cleanup callbacks not run exactly once: %r" % e)
@@ -118,10 +119,10 @@ def nontrivial(h):
     return sum(1 for s in h if s["a"] not in ("copyout", "freeze", "unfreeze", "expand")) >= 2
 
 
-def replay(chk, exe, hists, c, *, label="", extra_cfg=None, limit_fail=5, key_fn=None, extra=None):
+def replay(chk, exe, hists, c, *, label="", extra_cfg=None, limit_fail=5, key_fn=None, extra=None, check_end=False):
     dc = drv_cfg(c, **(extra_cfg or {}))
     outs = vkit.run_driver(exe, [{"cfg": dc, "h": strip_obs(h)} for h in hists])
-    fails = compare(hists, outs, extra=extra)
+    fails = compare(hists, outs, extra=extra, check_end=check_end)
     chk.cov["traces_validated_against_impl"] += len(hists)
     for (i, k, msg) in fails[:limit_fail]:
         key = key_fn(hists[i], k, msg) if key_fn else None
@@ -142,6 +143,8 @@ def standard_run(pid, tier, seed, plan):
     for g in plan["gen"]:
         hs = generate(chk, g["name"], g["consts"], simulate=g.get("simulate"), depth=g.get("depth"),
                       seed=seed if g.get("simulate") else None, max_hist=g.get("max_hist"), timeout=g.get("timeout", 1200))
+        if g.get("stride"):
+            hs = hs[seed % g["stride"]::g["stride"]]
         if not hs:
             raise vkit.InfraError("generator %s produced no histories" % g["name"])
         for h in hs:
@@ -150,7 +153,8 @@ def standard_run(pid, tier, seed, plan):
             chk.sample({"gen": g["name"], "history": strip_obs(h), "predicted_last_obs": h[-1]["o"]}, limit=5)
         for k, v in op_histogram(hs).items():
             hist_total[k] = hist_total.get(k, 0) + v
-        replay(chk, exe, hs, g["consts"], label=g["name"], extra_cfg=g.get("extra"), key_fn=g.get("key_fn"))
+        replay(chk, exe, hs, g["consts"], label=g["name"], extra_cfg=g.get("extra"), key_fn=g.get("key_fn"),
+               check_end=plan.get("check_end", False))
     chk.cov["op_histogram"] = hist_total
     missing = [o for o in plan.get("need_ops", []) if hist_total.get(o, 0) == 0]
     if missing:
